@@ -179,7 +179,8 @@ package buffer
 //@   ghostset writer.#gn = 0
 //@   ghostset writer.#gk = 0
 //@   ghostset writer.#gm = 0
-//@   modifies writer.err, writer.frame.#blen, bufbytes(writer.frame), arrayof(writer.putbuf), writer.#ft, writer.#gs, writer.#gn, writer.#gk, writer.#gm
+//@   ghostset writer.#ec = 0
+//@   modifies writer.err, writer.frame.#blen, bufbytes(writer.frame), arrayof(writer.putbuf), writer.#ft, writer.#gs, writer.#gn, writer.#gk, writer.#gm, writer.#ec
 
 //@ func (*Writer).AddByte
 //@   props C02 C04
@@ -192,7 +193,9 @@ package buffer
 //@   ghostset writer.#gn = old(WN(writer, 1, b)) if old(writer.err) == nil
 //@   ghostset writer.#gk = old(WK(writer, 1, b)) if old(writer.err) == nil
 //@   ghostset writer.#gm = old(WM(writer, 1, b)) if old(writer.err) == nil
-//@   modifies writer.err, writer.frame.#blen, bufbytes(writer.frame, writer.frame.#blen), writer.#gs, writer.#gn, writer.#gk, writer.#gm
+//@   ghostset writer.#ec = b if old(writer.err) == nil
+//@   ensures [field-code] old(writer.err) == nil ==> writer.#ec == b
+//@   modifies writer.err, writer.frame.#blen, bufbytes(writer.frame, writer.frame.#blen), writer.#gs, writer.#gn, writer.#gk, writer.#gm, writer.#ec
 
 //@ func (*Writer).AddInt16
 //@   props C02 C04
@@ -235,17 +238,28 @@ package buffer
 //@   modifies writer.err, writer.frame.#blen, bufbytes(writer.frame, writer.frame.#blen), writer.#gs, writer.#gn, writer.#gk, writer.#gm
 
 //@ func (*Writer).AddString
-//@   props C02 C04
+//@   props C02 C04 C17
 //@   requires writer != nil
 //@   requires [started] writer.err == nil ==> FrameOK(writer)
+//@   requires [cstring] {C02 C17} nulfree(s)
 //@   ensures [appended] old(writer.err) == nil ==> (writer.err == nil && writer.frame.#blen == old(writer.frame.#blen) + len(s) && FrameOK(writer) && size == len(s))
-//@   ensures [token] old(writer.err) == nil ==> (writer.#gs == old(WS(writer, 4, nulfree(s) ? 1 : 0)) && writer.#gn == old(WN(writer, 4, 0)) && writer.#gk == old(WK(writer, 4, 0)) && writer.#gm == old(WM(writer, 4, 0)) && writer.#ft == old(writer.#ft))
+//@   ensures [token] old(writer.err) == nil ==> (writer.#gs == old(WS(writer, 4, 1)) && writer.#gn == old(WN(writer, 4, 1)) && writer.#gk == old(WK(writer, 4, 1)) && writer.#gm == old(WM(writer, 4, 1)) && writer.#ft == old(writer.#ft))
+//@   ensures [field-text] {C17} old(writer.err) == nil ==> (writer.#eS == (old(EField(writer, 'S')) ? s : old(writer.#eS)) && writer.#eC == (old(EField(writer, 'C')) ? s : old(writer.#eC)) && writer.#eM == (old(EField(writer, 'M')) ? s : old(writer.#eM)) && writer.#eD == (old(EField(writer, 'D')) ? s : old(writer.#eD)) && writer.#eH == (old(EField(writer, 'H')) ? s : old(writer.#eH)) && writer.#eF == (old(EField(writer, 'F')) ? s : old(writer.#eF)) && writer.#eL == (old(EField(writer, 'L')) ? s : old(writer.#eL)) && writer.#eR == (old(EField(writer, 'R')) ? s : old(writer.#eR)) && writer.#en == (old(EField(writer, 'n')) ? s : old(writer.#en)))
 //@   ensures [latched] old(writer.err) != nil ==> (writer.err == old(writer.err) && writer.frame.#blen == old(writer.frame.#blen) && writer.#gs == old(writer.#gs) && size == 0)
-//@   ghostset writer.#gs = old(WS(writer, 4, nulfree(s) ? 1 : 0)) if old(writer.err) == nil
-//@   ghostset writer.#gn = old(WN(writer, 4, 0)) if old(writer.err) == nil
-//@   ghostset writer.#gk = old(WK(writer, 4, 0)) if old(writer.err) == nil
-//@   ghostset writer.#gm = old(WM(writer, 4, 0)) if old(writer.err) == nil
-//@   modifies writer.err, writer.frame.#blen, bufbytes(writer.frame, writer.frame.#blen), writer.#gs, writer.#gn, writer.#gk, writer.#gm
+//@   ghostset writer.#gs = old(WS(writer, 4, 1)) if old(writer.err) == nil
+//@   ghostset writer.#gn = old(WN(writer, 4, 1)) if old(writer.err) == nil
+//@   ghostset writer.#gk = old(WK(writer, 4, 1)) if old(writer.err) == nil
+//@   ghostset writer.#gm = old(WM(writer, 4, 1)) if old(writer.err) == nil
+//@   ghostset writer.#eS = s if old(writer.err) == nil && old(EField(writer, 'S'))
+//@   ghostset writer.#eC = s if old(writer.err) == nil && old(EField(writer, 'C'))
+//@   ghostset writer.#eM = s if old(writer.err) == nil && old(EField(writer, 'M'))
+//@   ghostset writer.#eD = s if old(writer.err) == nil && old(EField(writer, 'D'))
+//@   ghostset writer.#eH = s if old(writer.err) == nil && old(EField(writer, 'H'))
+//@   ghostset writer.#eF = s if old(writer.err) == nil && old(EField(writer, 'F'))
+//@   ghostset writer.#eL = s if old(writer.err) == nil && old(EField(writer, 'L'))
+//@   ghostset writer.#eR = s if old(writer.err) == nil && old(EField(writer, 'R'))
+//@   ghostset writer.#en = s if old(writer.err) == nil && old(EField(writer, 'n'))
+//@   modifies writer.err, writer.frame.#blen, bufbytes(writer.frame, writer.frame.#blen), writer.#gs, writer.#gn, writer.#gk, writer.#gm, writer.#eS, writer.#eC, writer.#eM, writer.#eD, writer.#eH, writer.#eF, writer.#eL, writer.#eR, writer.#en
 
 //@ func (*Writer).AddNullTerminate
 //@   props C02 C04
@@ -269,6 +283,18 @@ package buffer
 //@   ensures [latched-silent] old(writer.err) != nil ==> (result == old(writer.err) && #nOut == old(#nOut) && #nZ == old(#nZ) && #nE == old(#nE) && #last == old(#last) && #cyc == old(#cyc) && #failed == old(#failed))
 //@   ensures [emitted] (old(writer.err) == nil && result == nil) ==> (#nOut == old(#nOut) + 1 && #last == old(writer.#ft) && #nZ == old(#nZ) + (old(writer.#ft) == 'Z' ? 1 : 0) && #nE == old(#nE) + (old(writer.#ft) == 'E' ? 1 : 0) && #cyc == cycStep(old(#cyc), old(writer.#ft)) && #failed == old(#failed))
 //@   ensures [sink-failed] (old(writer.err) == nil && result != nil) ==> (#nOut == old(#nOut) && #nZ == old(#nZ) && #nE == old(#nE) && #last == old(#last) && #cyc == old(#cyc) && #failed)
+//@   ensures [error-fields] {C17} (old(writer.err) == nil && result == nil && old(writer.#ft) == 'E') ==> (#E_mask == old(writer.#gm) && #E_S == old(writer.#eS) && #E_C == old(writer.#eC) && #E_M == old(writer.#eM) && #E_D == old(writer.#eD) && #E_H == old(writer.#eH) && #E_F == old(writer.#eF) && #E_L == old(writer.#eL) && #E_R == old(writer.#eR) && #E_n == old(writer.#en))
+//@   ensures [error-fields-kept] {C17} !(old(writer.err) == nil && result == nil && old(writer.#ft) == 'E') ==> (#E_mask == old(#E_mask) && #E_S == old(#E_S) && #E_C == old(#E_C) && #E_M == old(#E_M) && #E_D == old(#E_D) && #E_H == old(#E_H) && #E_F == old(#E_F) && #E_L == old(#E_L) && #E_R == old(#E_R) && #E_n == old(#E_n))
+//@   ghostset #E_mask = old(writer.#gm) if old(writer.err) == nil && result == nil && old(writer.#ft) == 'E'
+//@   ghostset #E_S = old(writer.#eS) if old(writer.err) == nil && result == nil && old(writer.#ft) == 'E'
+//@   ghostset #E_C = old(writer.#eC) if old(writer.err) == nil && result == nil && old(writer.#ft) == 'E'
+//@   ghostset #E_M = old(writer.#eM) if old(writer.err) == nil && result == nil && old(writer.#ft) == 'E'
+//@   ghostset #E_D = old(writer.#eD) if old(writer.err) == nil && result == nil && old(writer.#ft) == 'E'
+//@   ghostset #E_H = old(writer.#eH) if old(writer.err) == nil && result == nil && old(writer.#ft) == 'E'
+//@   ghostset #E_F = old(writer.#eF) if old(writer.err) == nil && result == nil && old(writer.#ft) == 'E'
+//@   ghostset #E_L = old(writer.#eL) if old(writer.err) == nil && result == nil && old(writer.#ft) == 'E'
+//@   ghostset #E_R = old(writer.#eR) if old(writer.err) == nil && result == nil && old(writer.#ft) == 'E'
+//@   ghostset #E_n = old(writer.#en) if old(writer.err) == nil && result == nil && old(writer.#ft) == 'E'
 //@   ensures [fail-stop] old(#failed) ==> result != nil
 //@   ensures [err-kind] (old(writer.err) == nil && result != nil) ==> !isExceeded(result)
-//@   modifies writer.err, writer.frame.#blen, bufbytes(writer.frame, 1), #nOut, #nZ, #nE, #last, #cyc, #failed
+//@   modifies writer.err, writer.frame.#blen, bufbytes(writer.frame, 1), #nOut, #nZ, #nE, #last, #cyc, #failed, #E_mask, #E_S, #E_C, #E_M, #E_D, #E_H, #E_F, #E_L, #E_R, #E_n
